@@ -228,6 +228,61 @@ pub fn new_log(keep_records: bool) -> SharedLog {
     }))
 }
 
+/// Declared variables of the expanded vector (what the "model" stores per draw besides statistics).
+#[derive(Debug, Clone, Serialize, Deserialize, PartialEq)]
+pub enum VarType {
+    F64,
+    F32,
+    I64,
+    U64,
+    Bool,
+    Str,
+}
+
+#[derive(Debug, Clone, Serialize, Deserialize, PartialEq)]
+pub struct VarSpec {
+    pub name: String,
+    pub ty: VarType,
+    /// dimension names; sizes in `SimDensity::extra_dims` ("dim" = model dimension)
+    pub dims: Vec<String>,
+    /// probability (per mille) that a float element is replaced by a special value (NaN, inf, -0.0)
+    pub special_permille: u32,
+}
+
+pub fn default_vars() -> Vec<VarSpec> {
+    vec![VarSpec { name: "value".into(), ty: VarType::F64, dims: vec!["dim".into()], special_permille: 0 }]
+}
+
+/// Expanded vector of the stub model: values are a deterministic function of the position.
+#[derive(Debug, Clone)]
+pub struct SimExpanded {
+    pub values: Vec<Option<nuts_rs::Value>>,
+}
+
+impl nuts_rs::Storable<SimDensity> for SimExpanded {
+    fn names(parent: &SimDensity) -> Vec<&str> {
+        parent.vars.iter().map(|v| v.name.as_str()).collect()
+    }
+    fn item_type(parent: &SimDensity, item: &str) -> nuts_rs::ItemType {
+        let v = parent.vars.iter().find(|v| v.name == item).expect("unknown variable");
+        match v.ty {
+            VarType::F64 => nuts_rs::ItemType::F64,
+            VarType::F32 => nuts_rs::ItemType::F32,
+            VarType::I64 => nuts_rs::ItemType::I64,
+            VarType::U64 => nuts_rs::ItemType::U64,
+            VarType::Bool => nuts_rs::ItemType::Bool,
+            VarType::Str => nuts_rs::ItemType::String,
+        }
+    }
+    fn dims<'a>(parent: &'a SimDensity, item: &str) -> Vec<&'a str> {
+        let v = parent.vars.iter().find(|v| v.name == item).expect("unknown variable");
+        v.dims.iter().map(|d| d.as_str()).collect()
+    }
+    fn get_all<'a>(&'a mut self, parent: &'a SimDensity) -> Vec<(&'a str, Option<nuts_rs::Value>)> {
+        parent.vars.iter().zip(self.values.iter()).map(|(v, x)| (v.name.as_str(), x.clone())).collect()
+    }
+}
+
 /// Stub flow: an affine map owned by the harness. y = (x - shift) / scale.
 #[derive(Debug, Clone)]
 pub struct AffineFlow {
@@ -249,6 +304,10 @@ pub struct SimDensity {
     pub expanded_extra: bool,
     /// engine B: Model::math instance number (enables per-task bookkeeping of unrecoverable faults)
     pub instance: Option<u32>,
+    /// declared variables of the expanded vector
+    pub vars: Arc<Vec<VarSpec>>,
+    /// extra dimension sizes (besides "dim" and "unconstrained_parameter")
+    pub extra_dims: Arc<Vec<(String, u64)>>,
 }
 
 impl SimDensity {
@@ -261,6 +320,8 @@ impl SimDensity {
             eval_cost_ns: 0,
             expanded_extra: false,
             instance: None,
+            vars: Arc::new(default_vars()),
+            extra_dims: Arc::new(vec![]),
         }
     }
 }
@@ -268,17 +329,21 @@ impl SimDensity {
 impl HasDims for SimDensity {
     fn dim_sizes(&self) -> HashMap<String, u64> {
         let d = self.target.dim() as u64;
-        HashMap::from([
+        let mut m = HashMap::from([
             ("unconstrained_parameter".to_string(), d),
             ("dim".to_string(), d),
-        ])
+        ]);
+        for (k, v) in self.extra_dims.iter() {
+            m.insert(k.clone(), *v);
+        }
+        m
     }
 }
 
 impl CpuLogpFunc for SimDensity {
     type LogpError = SimLogpError;
     type FlowParameters = AffineFlow;
-    type ExpandedVector = Vec<f64>;
+    type ExpandedVector = SimExpanded;
 
     fn dim(&self) -> usize {
         self.target.dim()
@@ -342,11 +407,63 @@ impl CpuLogpFunc for SimDensity {
         }
     }
 
-    fn expand_vector<R>(&mut self, _rng: &mut R, array: &[f64]) -> Result<Vec<f64>, CpuMathError>
+    fn expand_vector<R>(&mut self, _rng: &mut R, array: &[f64]) -> Result<SimExpanded, CpuMathError>
     where
         R: rand::Rng + ?Sized,
     {
-        Ok(array.to_vec())
+        let sizes = self.dim_sizes();
+        let mut h: u64 = 0x1234_5678_9abc_def0;
+        for x in array {
+            h = crate::prng::splitmix64(h ^ x.to_bits());
+        }
+        let mut values = Vec::with_capacity(self.vars.len());
+        for (vi, v) in self.vars.iter().enumerate() {
+            let n: usize = v.dims.iter().map(|d| *sizes.get(d).unwrap_or(&1) as usize).product();
+            let scalar = v.dims.is_empty();
+            let mut r = crate::prng::Prng::new(crate::prng::splitmix64(h ^ vi as u64));
+            let val = if v.name == "value" && v.ty == VarType::F64 && v.dims == ["dim"] {
+                nuts_rs::Value::F64(array.to_vec())
+            } else {
+                match v.ty {
+                    VarType::F64 => {
+                        let mut g = |r: &mut crate::prng::Prng| {
+                            let x = r.normal() * 10.0;
+                            if r.below(1000) < v.special_permille as u64 { *r.pick(&[f64::NAN, f64::INFINITY, f64::NEG_INFINITY, -0.0, 1e-310, f64::MAX]) } else { x }
+                        };
+                        if scalar { nuts_rs::Value::ScalarF64(g(&mut r)) } else { nuts_rs::Value::F64((0..n).map(|_| g(&mut r)).collect()) }
+                    }
+                    VarType::F32 => {
+                        let mut g = |r: &mut crate::prng::Prng| {
+                            let x = (r.normal() * 10.0) as f32;
+                            if r.below(1000) < v.special_permille as u64 { *r.pick(&[f32::NAN, f32::INFINITY, f32::NEG_INFINITY, -0.0f32]) } else { x }
+                        };
+                        if scalar { nuts_rs::Value::ScalarF32(g(&mut r)) } else { nuts_rs::Value::F32((0..n).map(|_| g(&mut r)).collect()) }
+                    }
+                    VarType::I64 => {
+                        let mut g = |r: &mut crate::prng::Prng| if r.chance(0.05) { *r.pick(&[i64::MIN, i64::MAX, 0, -1]) } else { r.next_u64() as i64 >> 20 };
+                        if scalar { nuts_rs::Value::ScalarI64(g(&mut r)) } else { nuts_rs::Value::I64((0..n).map(|_| g(&mut r)).collect()) }
+                    }
+                    VarType::U64 => {
+                        let mut g = |r: &mut crate::prng::Prng| if r.chance(0.05) { *r.pick(&[u64::MAX, 0, 1]) } else { r.next_u64() >> 20 };
+                        if scalar { nuts_rs::Value::ScalarU64(g(&mut r)) } else { nuts_rs::Value::U64((0..n).map(|_| g(&mut r)).collect()) }
+                    }
+                    VarType::Bool => {
+                        if scalar { nuts_rs::Value::ScalarBool(r.chance(0.5)) } else { nuts_rs::Value::Bool((0..n).map(|_| r.chance(0.5)).collect()) }
+                    }
+                    VarType::Str => {
+                        let s = match r.below(5) {
+                            0 => String::new(),
+                            1 => "\u{e4}\u{f6}\u{fc} \u{1f600} \u{4e2d}".to_string(),
+                            2 => format!("line1\nline2,\"quoted\",{}", r.below(100)),
+                            _ => format!("s{}", r.next_u64() % 100000),
+                        };
+                        nuts_rs::Value::ScalarString(s)
+                    }
+                }
+            };
+            values.push(Some(val));
+        }
+        Ok(SimExpanded { values })
     }
 
     // ---- stub flow -------------------------------------------------------------------------
